@@ -100,6 +100,14 @@ __CPROVER_ensures((__CPROVER_return_value && !g_is_ref) ==> (long)Option_unsigne
 __CPROVER_ensures((__CPROVER_return_value && g_is_ref) ==> ((REF_TYPE == OT_NUM_V || REF_TYPE == OT_UNUM_V) && (long)Option_unsigned_m_val(out) == (NEGATED ? -REF_VAL : REF_VAL)))
 __CPROVER_ensures((NUMERAL && (g_val < 0 || g_val > UINT_MAX_L)) ==> !__CPROVER_return_value)
 ;
+/* ---- K5 read_version_part (a part of the version of a 'using' line): accepted exactly when the whole text is one numeral in [0, 1023] ---- */
+_Bool read_version_part_contract(const char *in, int *out)
+__CPROVER_requires(STR_OK(in) && g_in == in && STRTOL_MODEL && __CPROVER_is_fresh(out, sizeof(int)))
+__CPROVER_assigns(*out, errno)
+__CPROVER_ensures(__CPROVER_return_value == (g_numlen > 0 && NUMERAL && 0 <= g_val && g_val <= 1023))
+__CPROVER_ensures(__CPROVER_return_value ==> (long)*out == g_val)
+__CPROVER_ensures(!__CPROVER_return_value ==> *out == __CPROVER_old(*out))
+;
 /* ---- K3 Option<bool>::read ---- */
 _Bool bool_read_contract(struct Option_bool *o, const char *in)
 __CPROVER_requires(STR_OK(in) && g_in == in && __CPROVER_is_fresh(o, SIZEOF_Option_bool) && __CPROVER_is_fresh(g_ref, SIZEOF_Option_bool) && REF_TYPE <= 6 && g_warn_n < 1000 && !g_is_ref)
